@@ -1,9 +1,313 @@
-/- C19 driver: not written yet -/
+/-
+  C19 driver: replays what the real `QEF<N>` code did (harness/qef.cpp output) through the model
+  (LibfiveModel/QEF.lean) instantiated at `Float`:
+
+  * `select`   : the model's `selectBounded` (control logic of `solveBounded`) is fed the REAL
+                 full-dimension candidate and the REAL per-subspace candidates; its choice must be
+                 bit-identical to the real `solveBounded` result (control flow compared, not Eigen).
+  * `cand`     : every real `solveConstrained<nb>` candidate has the `constrained` flags and the
+                 exact face coordinates the model's `assemblePos` / `nbFixed` / `Region.face`
+                 prescribe, and its error is the model's `QEF.error` on the real matrices (tolerance
+                 from magnitudes: Eigen's evaluation order and FMA contraction differ).
+  * `insert`   : `QEF.ofSamples` at Float vs the real matrices (tolerance from magnitudes).
+  * `sub`      : model `sub<mask>` of the real matrices = real `sub<mask>`, bit for bit.
+  * `shrink` / `target` : `Region.shrink`, `Region.center`, `averageDistanceValue` bit for bit.
+  * `accum`    : model `+=` of the real halves = real `+=`, bit for bit, and `a+=b` = `b+=a`.
+  * `reduced`  : for well-conditioned candidates the real solution satisfies the model's reduced
+                 normal equations (residual small relative to the magnitudes involved).
+  Output: `ok <what> case <id> …` / `MISMATCH <what> case <id> …` / `skip …`.
+-/
 import Driver.Parse
+import LibfiveModel.QEF
+open Libfive Libfive.QEF
 
 namespace Driver.C19
 
-def run (_args : List String) (lines : Array String) : Array String :=
-  #[s!"MISMATCH driver-not-implemented {lines.size}"]
+def f64! (s : String) : Float :=
+  match F32.parseHex s with
+  | some n => Float.ofBits n.toUInt64
+  | none => 0.0 / 0.0
+
+def hex64 (f : Float) : String :=
+  let n := f.toBits.toNat
+  let digs := (List.range 16).map fun i =>
+    let d := (n >>> (4 * (15 - i))) % 16
+    if d < 10 then Char.ofNat (d + '0'.toNat) else Char.ofNat (d - 10 + 'a'.toNat)
+  String.ofList digs
+
+def sameF (a b : Float) : Bool := a.toBits == b.toBits || (a.isNaN && b.isNaN)
+
+def vecOf {n : Nat} (a : Array Float) : Fin n → Float := fun i => a.getD i.val 0
+
+def matOf {n : Nat} (a : Array Float) (off : Nat) : Fin n → Fin n → Float :=
+  fun i j => a.getD (off + i.val * n + j.val) 0
+
+/-- the three matrices, read from `3·(n+1)²` numbers -/
+def qefOf (n : Nat) (a : Array Float) : QEF n Float :=
+  let k := (n + 1) * (n + 1)
+  { AtA := matOf a 0, AtBp := matOf a k, BptBp := matOf a (2 * k) }
+
+def qefToArray {n : Nat} (q : QEF n Float) : Array Float := Id.run do
+  let mut out := #[]
+  for m in [q.AtA, q.AtBp, q.BptBp] do
+    for i in List.finRange (n + 1) do
+      for j in List.finRange (n + 1) do
+        out := out.push (m i j)
+  return out
+
+/-- strict copy (avoids re-running closures) -/
+def freeze {n : Nat} (q : QEF n Float) : QEF n Float := qefOf n (qefToArray q)
+
+structure SolR where
+  pos : Array Float
+  con : Array Bool
+  value : Float
+  rank : UInt32
+  error : Float
+deriving Inhabited
+
+def parseSol (n : Nat) (ws : List String) : SolR :=
+  let a := ws.toArray
+  let pos := (Array.range n).map fun i => f64! (a.getD i "")
+  let bits := (a.getD n "").toList.toArray
+  let con := (Array.range n).map fun i => bits.getD i '0' == '1'
+  { pos := pos, con := con, value := f64! (a.getD (n + 1) ""),
+    rank := (nat! (a.getD (n + 2) "")).toUInt32, error := f64! (a.getD (n + 3) "") }
+
+def SolR.toModel (n : Nat) (s : SolR) : Solution n Float :=
+  { position := vecOf s.pos, constrained := fun i => s.con.getD i.val false, value := s.value,
+    rank := s.rank, error := s.error }
+
+def solSame {n : Nat} (a b : Solution n Float) : Bool :=
+  (List.finRange n).all (fun i => sameF (a.position i) (b.position i) && a.constrained i == b.constrained i)
+    && sameF a.value b.value && a.rank == b.rank && sameF a.error b.error
+
+def showSol {n : Nat} (a : Solution n Float) : String :=
+  let p := (List.finRange n).map fun i => hex64 (a.position i)
+  let c := (List.finRange n).map fun i => if a.constrained i then "1" else "0"
+  s!"{" ".intercalate p} {String.join c} {hex64 a.value} {a.rank} {hex64 a.error}"
+
+structure Case where
+  id : String := ""
+  n : Nat := 0
+  box : Array Float := #[]
+  shrink : Float := 0
+  samples : Array (Array Float) := #[]
+  mat : Array Float := #[]
+  shrunk : Array Float := #[]
+  targetDefault : Bool := true
+  target : Array Float := #[]
+  full : Option SolR := none
+  cands : Array SolR := #[]
+  result : Option SolR := none
+  result4 : Option SolR := none
+  errat : Float := 0
+  subs : Array (Nat × Array Float) := #[]
+  splits : Array (String × Array Float) := #[]
+  unsupported : Bool := false
+
+def eps : Float := 1.1102230246251565e-16   -- 2^-53
+
+def absQ {n : Nat} (q : QEF n Float) : QEF n Float :=
+  { AtA := fun i j => (q.AtA i j).abs, AtBp := fun i j => (q.AtBp i j).abs,
+    BptBp := fun i j => (q.BptBp i j).abs }
+
+/-- magnitude of the terms of `errorV` (all signs made positive) -/
+def magV {n : Nat} (q : QEF n Float) (v : Fin (n + 1) → Float) : Float :=
+  let a := absQ q
+  let w : Fin (n + 1) → Float := fun i => (v i).abs
+  sumFin (n + 1) (fun j => sumFin (n + 1) (fun i => w i * a.AtA i j) * w j)
+    + 2 * sumFin (n + 1) (fun i => w i * a.AtB i) + a.BtB
+
+def mkRegion (n : Nat) (a : Array Float) : Region n Float :=
+  { lower := fun i => a.getD i.val 0, upper := fun i => a.getD (n + i.val) 0 }
+
+def sampleOf (n : Nat) (a : Array Float) : Sample n Float :=
+  { pos := fun i => a.getD i.val 0, nrm := fun i => a.getD (n + i.val) 0, val := a.getD (2 * n) 0 }
+
+def absSample {n : Nat} (s : Sample n Float) : Sample n Float :=
+  { pos := fun i => (s.pos i).abs, nrm := fun i => (s.nrm i).abs, val := s.val.abs }
+
+/-- insert samples one at a time, freezing after each (keeps evaluation linear) -/
+def buildQ (n : Nat) (ss : Array (Sample n Float)) : QEF n Float :=
+  ss.foldl (fun q s => freeze (q.insert Float.isFinite s)) (QEF.empty n)
+
+def arraysClose (a b tol : Array Float) : Option Nat := Id.run do
+  for i in [0:a.size] do
+    let x := a.getD i 0; let y := b.getD i 0; let t := tol.getD i 0
+    if !(sameF x y || (x - y).abs ≤ t) then return some i
+  return none
+
+def arraysSame (a b : Array Float) : Option Nat := Id.run do
+  if a.size != b.size then return some 0
+  for i in [0:a.size] do
+    if !sameF (a.getD i 0) (b.getD i 0) then return some i
+  return none
+
+/-- instrumentation only: how often the search saw two equal errors, and how often the
+    tie-break disjunct (not the `<`) made it replace `out` -/
+def tieStats {n : Nat} (cand : Nat → Solution n Float) (r : Region n Float) : Nat × Nat := Id.run do
+  let mut out : Solution n Float := dummy n 0
+  let mut eqs := 0
+  let mut tbs := 0
+  for k in [0:n] do
+    let d := n - 1 - k
+    for nb in subspacesOfDim n d do
+      let s := cand nb
+      if QOrd.eq s.error out.error then eqs := eqs + 1
+      if accepts r out s && !(QOrd.lt s.error out.error) then tbs := tbs + 1
+      out := step r out s
+    if !r.contains out.position then out := { out with error := QOrd.inf } else break
+  return (eqs, tbs)
+
+def checkCase (c : Case) : List String := Id.run do
+  let n := c.n
+  let tag := s!"case {c.id}"
+  if c.unsupported then return [s!"skip {tag} unsupported-dimension"]
+  let mut out : List String := []
+  let region := mkRegion n c.box
+  let shrunkReal := mkRegion n c.shrunk
+  let q := qefOf n c.mat
+  -- shrink
+  let shrunkM := region.shrink c.shrink
+  let okShr := (List.finRange n).all fun i =>
+    sameF (shrunkM.lower i) (shrunkReal.lower i) && sameF (shrunkM.upper i) (shrunkReal.upper i)
+  out := out ++ [if okShr then s!"ok shrink {tag}" else s!"MISMATCH shrink {tag}"]
+  -- default target
+  let tpos : Fin n → Float := vecOf c.target
+  let tval := c.target.getD n 0
+  if c.targetDefault then
+    let okT := (List.finRange n).all (fun i => sameF (region.center i) (tpos i))
+      && sameF q.averageDistanceValue tval
+    out := out ++ [if okT then s!"ok target {tag}" else s!"MISMATCH target {tag}"]
+  -- insert: model matrices from the raw samples
+  let ss := c.samples.map (sampleOf n)
+  let qm := buildQ n ss
+  let qa := buildQ n (ss.map absSample)
+  let m := c.samples.size
+  let tolI := (qefToArray (absQ qa)).map fun g => 2 * (m.toFloat + 4) * eps * g
+  match arraysClose (qefToArray qm) c.mat tolI with
+  | none => out := out ++ [s!"ok insert {tag} samples={m}"]
+  | some i => out := out ++ [s!"MISMATCH insert {tag} entry={i} model={hex64 ((qefToArray qm).getD i 0)} real={hex64 (c.mat.getD i 0)}"]
+  -- sub<mask>
+  let mut subBad : Option Nat := none
+  for (mask, arr) in c.subs do
+    let sm := q.sub mask
+    if (arraysSame (qefToArray sm) arr).isSome then subBad := some mask
+  out := out ++ [match subBad with
+    | none => s!"ok sub {tag} masks={c.subs.size}"
+    | some k => s!"MISMATCH sub {tag} mask={k}"]
+  -- += : a, b, ab, ba per split
+  let mut accBad := false
+  let mut nsplit := 0
+  for i in [0:c.splits.size / 4] do
+    let a := qefOf n (c.splits.getD (4 * i) default).2
+    let b := qefOf n (c.splits.getD (4 * i + 1) default).2
+    let ab := (c.splits.getD (4 * i + 2) default).2
+    let ba := (c.splits.getD (4 * i + 3) default).2
+    nsplit := nsplit + 1
+    if (arraysSame (qefToArray (a.add b)) ab).isSome then accBad := true
+    if (arraysSame (qefToArray (b.add a)) ba).isSome then accBad := true
+    if (arraysSame ab ba).isSome then accBad := true
+  out := out ++ [if accBad then s!"MISMATCH accum {tag}" else s!"ok accum {tag} splits={nsplit}"]
+  -- candidates: structure and error
+  let nc := 3 ^ n
+  if c.cands.size != nc then
+    return out ++ [s!"MISMATCH cand {tag} count={c.cands.size} expected={nc}"]
+  let mut candBad : List String := []
+  let mut worst : Float := 0
+  for nb in [0:nc] do
+    let s := (c.cands.getD nb default).toModel n
+    for i in List.finRange n do
+      if s.constrained i != nbFixed nb i.val then
+        candBad := candBad ++ [s!"flag nb={nb} axis={i.val}"]
+      if nbFixed nb i.val && !sameF (s.position i) (shrunkReal.face nb i) then
+        candBad := candBad ++ [s!"face nb={nb} axis={i.val}"]
+    let em := q.error s.position s.value
+    let mg := magV q (snoc s.position s.value)
+    let tol := 64 * eps * mg
+    if !(sameF em s.error || (em - s.error).abs ≤ tol) then
+      candBad := candBad ++ [s!"error nb={nb} model={hex64 em} real={hex64 s.error}"]
+    else if mg > 0 && (em - s.error).abs / (eps * mg) > worst then
+      worst := (em - s.error).abs / (eps * mg)
+  -- the full candidate's error too
+  match c.full with
+  | some f =>
+    let s := f.toModel n
+    let em := q.error s.position s.value
+    let mg := magV q (snoc s.position s.value)
+    if !(sameF em s.error || (em - s.error).abs ≤ 64 * eps * mg) then
+      candBad := candBad ++ [s!"error full model={hex64 em} real={hex64 s.error}"]
+    if (List.finRange n).any (fun i => s.constrained i) then candBad := candBad ++ ["flag full"]
+  | none => candBad := candBad ++ ["no-full"]
+  out := out ++ [if candBad.isEmpty then s!"ok cand {tag} n={nc} worst_err_ratio={worst}"
+                 else s!"MISMATCH cand {tag} {" ; ".intercalate (candBad.take 4)}"]
+  -- selection logic on the real candidates
+  match c.full, c.result with
+  | some f, some r =>
+    let cand : Nat → Solution n Float := fun nb => (c.cands.getD nb default).toModel n
+    let sel := selectBounded (0 : Float) (f.toModel n) cand shrunkReal
+    let real := r.toModel n
+    let path :=
+      if solSame sel (f.toModel n) && shrunkReal.contains (f.toModel n).position then "full"
+      else match (List.range nc).find? (fun nb => solSame sel (cand nb)) with
+        | some nb => s!"nb{nb}-dim{nbDim n nb}"
+        | none => "dummy"
+    -- With the default target the harness derives `target_value` as the 2-argument overload does
+    -- (`AtBp(N,N)/AtA(N,N)`).  For a QEF without samples that is 0/0 = NaN (known finding
+    -- C19:empty-qef-default-target); if the library stops doing that, the harness' candidates are
+    -- no longer the ones the 2-argument call saw, so a difference is then not a model mismatch.
+    let nanTarget := c.targetDefault && tval.isNaN
+    if solSame sel real then
+      let (eqs, tbs) := if path == "full" then (0, 0) else tieStats cand shrunkReal
+      out := out ++ [s!"ok select {tag} path={path} inbox={shrunkReal.contains sel.position} ties={eqs} tiebreaks={tbs}"]
+    else if nanTarget then
+      out := out ++ [s!"skip select {tag} default-target-nan"]
+    else
+      out := out ++ [s!"MISMATCH select {tag} path={path} model={showSol sel} real={showSol real}"]
+    match c.result4 with
+    | some r4 =>
+      out := out ++ [if solSame (r4.toModel n) real then s!"ok result4 {tag}"
+                     else if nanTarget then s!"skip result4 {tag} default-target-nan"
+                     else s!"MISMATCH result4 {tag} two-arg={showSol real} four-arg={showSol (r4.toModel n)}"]
+    | none => pure ()
+    -- public `error()` at the returned point is the model's error on the real matrices
+    let em := q.error real.position real.value
+    let mg := magV q (snoc real.position real.value)
+    out := out ++ [if sameF em c.errat || (em - c.errat).abs ≤ 64 * eps * mg then s!"ok errat {tag}"
+                   else s!"MISMATCH errat {tag} model={hex64 em} real={hex64 c.errat}"]
+  | _, _ => out := out ++ [s!"MISMATCH select {tag} missing-lines"]
+  return out
+
+def floats (ws : List String) : Array Float := (ws.map f64!).toArray
+
+def handle (st : Case) (line : String) : Case × List String :=
+  match words line with
+  | "case" :: id :: n :: _ => ({ id := id, n := nat! n }, [])
+  | "unsupported" :: _ => ({ st with unsupported := true }, [])
+  | "box" :: rest => ({ st with box := floats rest }, [])
+  | "shrink" :: p :: _ => ({ st with shrink := f64! p }, [])
+  | "sample" :: rest => ({ st with samples := st.samples.push (floats rest) }, [])
+  | "mat" :: rest => ({ st with mat := floats rest }, [])
+  | "shrunk" :: rest => ({ st with shrunk := floats rest }, [])
+  | "target" :: kind :: rest => ({ st with targetDefault := kind == "default", target := floats rest }, [])
+  | "full" :: rest => ({ st with full := some (parseSol st.n rest) }, [])
+  | "cand" :: _ :: rest => ({ st with cands := st.cands.push (parseSol st.n rest) }, [])
+  | "result" :: rest => ({ st with result := some (parseSol st.n rest) }, [])
+  | "result4" :: rest => ({ st with result4 := some (parseSol st.n rest) }, [])
+  | "errat" :: e :: _ => ({ st with errat := f64! e }, [])
+  | "sub" :: mask :: rest => ({ st with subs := st.subs.push (nat! mask, floats rest) }, [])
+  | "splitmat" :: _ :: which :: rest => ({ st with splits := st.splits.push (which, floats rest) }, [])
+  | "end" :: _ => ({}, checkCase st)
+  | _ => (st, [])
+
+def run (_args : List String) (lines : Array String) : Array String := Id.run do
+  let mut st : Case := {}
+  let mut out : Array String := #[]
+  for l in lines do
+    let (st', vs) := handle st l
+    st := st'
+    for v in vs do out := out.push v
+  return out
 
 end Driver.C19
